@@ -6,27 +6,44 @@ CFG = {
     "corr": ["CorrC09"],
     "families": {
         "opt": {"header": HDR9, "model_fn": "model_opt", "rule": "F"},
+        "optworld": {"header": "From TeraV Require Import Model.Value Model.Instr Model.VM Corr.CorrC09.",
+                     "model_fn": "model_optworld", "rule": "F"},
     },
     "rule_text": "opt: one case per compiled chunk (main, block, component) of every snapshot-corpus template and every generated template: "
                  "(listing before, listing after Chunk::optimize) obtained through the tera_verif hook; distinct by term; non-trivial = at least "
                  "one fused group and a jump target on or next to a LoadName/LoadAttr/WriteTop. Oracle: render_str with the pass on and off "
-                 "(process-wide hook switch) over 10 contexts x autoescape on/off must give the same text or fail together.",
+                 "(process-wide hook switch) over 10 contexts x autoescape on/off must give the same text or fail together. "
+                 "optworld: one case per template SET (3 hand-written incl. components/arithmetic, 30 generated inheritance+include+loop sets; 120 in thorough) "
+                 "registered twice, pass off and pass on: inside Coq world_ok (the hypotheses of C09_optimize_world_correct) on the real unoptimised "
+                 "finalized world, opt_world of it = the real optimised finalized world (own chunk, root chunk, every lineage chunk, component table), "
+                 "and for sets in the World0 subset the model VM renders both worlds like the engine (render and render_block, 2 contexts; 4 in thorough); "
+                 "non-trivial = at least 3 fused instructions and a block lineage. Oracle: the real renders of the two registrations agree.",
     "trusted_base": TB_COMMON + [
         "axioms: none",
         "hook H2 (tera::verif::chunk_listings, set_optimize) reports the chunks the real compiler and the real optimize produce",
         "optimize_correct is proved over an abstract machine whose non-fused instructions have arbitrary deterministic semantics; "
         "the semantics given to LoadName/LoadAttr/WriteTop/LoadPath/WritePath/jumps/Iterate/Break are ported by hand from vm/interpreter.rs",
+        "optimize_world_correct is proved over Model/VM.v (hand port of interpret(), tied to the engine by the C03/C01/C07 VM correspondence "
+        "runs and by the optworld renders here); its world-side hypotheses are get_attr(Undefined)=None and scope_blind (filters/functions "
+        "cannot observe ForLoop.end_ip, a private field), both proved for World0",
+        "hook template_listing / component_listings report the finalized chunks (block lineage, component table) the VM runs",
     ],
     "modelled": ["parsing/instructions.rs Chunk::optimize (whole function)",
-                 "vm/interpreter.rs: LoadName, LoadAttr, WriteTop, LoadPath, WritePath, Jump*, Iterate/Break control flow"],
-    "assumptions": ["jump targets of compiled chunks are <= chunk length (checked on every real listing by the model returning Some)"],
+                 "vm/interpreter.rs: LoadName, LoadAttr, WriteTop, LoadPath, WritePath, Jump*, Iterate/Break control flow",
+                 "Tera::finalize_templates + Chunk::optimize on every chunk of a world (Model/OptWorld.v opt_world) over the full concrete VM (Model/VM.v)"],
+    "assumptions": ["jump targets of compiled chunks are <= chunk length (checked on every real listing by the model returning Some)",
+                    "whole-world theorem: every chunk passes chunk_ok (unfused, targets in range, Iterate forward, C07 check_chunk) - evaluated in Coq on every real "
+                    "world of the optworld family; without the loop discipline of check_chunk the statement is false (C09_needs_loop_discipline_example)"],
 }
 
 MANIFEST = (
-    "Rocq proof: structure theorem + simulation for the ported fusion pass; translation validation of every real chunk against the ported pass; on/off render oracle",
+    "Rocq proof: structure theorem + per-chunk simulation (abstract VM) + whole-world simulation on the concrete VM (nested chunks optimised too); translation validation of every real chunk and of real finalized worlds against the ported pass; on/off render oracle",
     "Theorems over the Gallina port of Chunk::optimize: the optimised code expands back to the original, no fused group swallows a jump target, "
     "every jump lands on the group start of the instruction it pointed to, and (simulation) running the optimised chunk on the abstract VM "
-    "yields the same output, stacks and failure as the original for every chunk with in-range targets and every state. The port is tied to the "
+    "yields the same output, stacks and failure as the original for every chunk with in-range targets and every state; and (optimize_world_correct) "
+    "on the concrete VM model, for every world whose chunks pass four decidable checks, every template, writer, block option and context, rendering "
+    "with every chunk optimised gives the same bytes or the same error class, in both directions with explicit fuel, includes/blocks/super()/components "
+    "included. The port is tied to the "
     "code by recomputing optimize inside Coq on the real before-listings of all corpus and generated templates and comparing with the real "
     "after-listings, every run; the hook's on/off switch gives a direct behavioural oracle.",
     "§6 C09",
